@@ -18,6 +18,7 @@ import (
 	"path/filepath"
 	"sort"
 	"strings"
+	"sync"
 	"sync/atomic"
 
 	"github.com/btcsuite/btcd/btcec/v2"
@@ -147,6 +148,7 @@ type party struct {
 	opener   bool
 
 	needSync       bool
+	lastWasRevoke  bool
 	awaitingRevoke bool
 	// lastRevoked is the highest own height revoked so far (-1 none), and the
 	// exact message, for the C06 release monitor.
@@ -588,6 +590,20 @@ func (w *World) Enabled() []string {
 			}
 		}
 	}
+	if w.P.CrashPoints && w.cuts < w.P.MaxCuts {
+		// A step that performs W>=2 durable writes has W-1 interior crash
+		// points (k=0 and k=W coincide with a cut before/after the step).
+		n := len(acts)
+		for _, a := range acts[:n] {
+			kind := w.kindOf(a)
+			for who := 0; who < 2; who++ {
+				wmax := writesTable(w.P.Type, kind, who)
+				for k := int64(1); k < wmax; k++ {
+					acts = append(acts, fmt.Sprintf("crash%d:%s:%s", k, w.pt[who].name, a))
+				}
+			}
+		}
+	}
 	if w.cuts < w.P.MaxCuts && len(w.hist) > 0 {
 		inSync := w.pt[0].needSync || w.pt[1].needSync
 		// A cut directly after a cut is a no-op; skip it.
@@ -623,6 +639,10 @@ func (w *World) Terminal() {
 
 // Do performs one action.
 func (w *World) Do(a string) error {
+	kind := ""
+	if a != "cut" && !strings.HasPrefix(a, "crash") {
+		kind = w.kindOf(a)
+	}
 	w.hist = append(w.hist, a)
 	before := [2]int64{w.pt[0].cdb.Commits(), w.pt[1].cdb.Commits()}
 	var err error
@@ -660,6 +680,9 @@ func (w *World) Do(a string) error {
 		w.lastWrites[i] = d
 		if d > w.Stats.MaxWrites.Load() {
 			w.Stats.MaxWrites.Store(d)
+		}
+		if kind != "" {
+			noteWrites(w.P.Type, kind, i, d)
 		}
 	}
 	w.checkAll(a)
@@ -701,6 +724,7 @@ func (w *World) local(i int, op string) error {
 		}
 		m := &lnwire.CommitSig{ChanID: chanID, CommitSig: ncs.CommitSig, HtlcSigs: ncs.HtlcSigs, PartialSig: ncs.PartialSig}
 		p.awaitingRevoke = true
+		p.lastWasRevoke = false
 		p.lastSigCovered = p.unsignedSent
 		p.unsignedSent = nil
 		for _, h := range w.h {
@@ -851,6 +875,7 @@ func (w *World) deliver(i int) error {
 			}
 			return nil
 		}
+		p.lastWasRevoke = true
 		w.onRevoke(i, rev, false)
 		w.send(1-i, wmsg{kind: "rev", m: rev})
 	case "rev":
@@ -937,7 +962,10 @@ func (w *World) Key() string {
 		if tip, err := st.RemoteCommitChainTip(); err == nil && tip != nil {
 			fmt.Fprintf(&b, "T:%s ", commitKey(&tip.Commitment))
 		}
-		fmt.Fprintf(&b, "o%v s%v a%v|", p.ch.OweCommitment(), p.needSync, p.awaitingRevoke)
+		// The order of the last sign/revoke decides the retransmission order after
+		// a reconnect (tracked by the explorer: lnd's in-memory LastWasRevoke is
+		// only refreshed from disk on load).
+		fmt.Fprintf(&b, "o%v s%v a%v w%v|", p.ch.OweCommitment(), p.needSync, p.awaitingRevoke, p.lastWasRevoke)
 		fmt.Fprintf(&b, "u%d}", len(p.unsignedSent))
 	}
 	for i := 0; i < 2; i++ {
@@ -960,3 +988,62 @@ func b2i(v bool) int {
 	}
 	return 0
 }
+
+// kindOf classifies an action for the durable-writes table: local operations
+// by name, deliveries by the kind of the message at the head of the wire.
+func (w *World) kindOf(a string) string {
+	if strings.HasPrefix(a, "dl>") {
+		i := int(a[3] - 'A')
+		if len(w.wire[i]) > 0 {
+			return "dl:" + w.wire[i][0].kind
+		}
+		return "dl:?"
+	}
+	if len(a) > 2 && a[1] == '.' {
+		return strings.TrimRight(a[2:], "0123456789")
+	}
+	return a
+}
+
+var (
+	wtMu sync.Mutex
+	wt   = map[string]int64{}
+	// WritesTableLate counts table growth after exploration started (the
+	// crash-point set was then incomplete for states visited earlier).
+	WritesTableLate atomic.Int64
+	wtFrozen        atomic.Bool
+)
+
+func wtKey(typ, kind string, who int) string { return fmt.Sprintf("%s|%s|%d", typ, kind, who) }
+
+func noteWrites(typ, kind string, who int, d int64) {
+	wtMu.Lock()
+	defer wtMu.Unlock()
+	k := wtKey(typ, kind, who)
+	if d > wt[k] {
+		wt[k] = d
+		if wtFrozen.Load() && d >= 2 {
+			WritesTableLate.Add(1)
+		}
+	}
+}
+
+func writesTable(typ, kind string, who int) int64 {
+	wtMu.Lock()
+	defer wtMu.Unlock()
+	return wt[wtKey(typ, kind, who)]
+}
+
+// WritesTable returns a copy of the durable-writes-per-step table.
+func WritesTable() map[string]int64 {
+	wtMu.Lock()
+	defer wtMu.Unlock()
+	o := map[string]int64{}
+	for k, v := range wt {
+		o[k] = v
+	}
+	return o
+}
+
+// FreezeWritesTable marks the end of the pre-pass.
+func FreezeWritesTable() { wtFrozen.Store(true) }
